@@ -86,6 +86,18 @@ class PathStr(Ext):
             return PathStr(o + self.label if reflected else self.label + o)
         raise Unsupported("path operator")
 
+    def sym_getattr(self, eng, name):
+        if name in ("startswith", "endswith"):
+            return stub(lambda eng, x, _n=name: getattr(self.label, _n)(x.label if isinstance(x, PathStr) else x))
+        if name in ("rstrip", "lstrip", "strip"):
+            return stub(lambda eng, *a, _n=name: PathStr(getattr(self.label, _n)(*a)))
+        if name == "split":
+            return stub(lambda eng, *a: VList(list(self.label.split(*a))))
+        raise Unsupported("str.%s on a path" % name)
+
+    def sym_len(self, eng):
+        return len(self.label)
+
 
 class MXStub(Ext):
     type_names = ("MX",)
@@ -223,16 +235,46 @@ def install(eng, w):
         return PathStr("/".join(x.label if isinstance(x, PathStr) else x for x in parts))
 
     def walk(eng, folder, followlinks=False):
+        # top-down over the folder and every folder below it (a folder of the world whose path continues this one's after a "/")
         lab = folder.label if isinstance(folder, PathStr) else folder
         w.walked.append(lab)
-        return VList([(PathStr(lab), VList([]), VList(list(w.folders.get(lab, []))))])
+        out = [(PathStr(lab), VList([]), VList(list(w.folders.get(lab, []))))]
+        for sub in sorted(k_ for k_ in w.folders if k_.startswith(lab + "/")):
+            w.walked.append(sub)
+            out.append((PathStr(sub), VList([]), VList(list(w.folders[sub]))))
+        return VList(out)
+
+    def _lab(p_):
+        return p_.label if isinstance(p_, PathStr) else str(p_)
+
+    def commonprefix(eng, paths):
+        # os.path.commonprefix compares CHARACTER by character, not path component by component
+        labs = [_lab(p_) for p_ in eng.iterate(paths)]
+        import os as _os
+        return PathStr(_os.path.commonprefix(labs))
+
+    def commonpath(eng, paths):
+        labs = [_lab(p_).split("/") for p_ in eng.iterate(paths)]
+        out = []
+        for parts in zip(*labs):
+            if len(set(parts)) != 1:
+                break
+            out.append(parts[0])
+        return PathStr("/".join(out))
 
     def fn_filter(eng, names, pat):
         if pat != "*.mo":
             raise Unsupported("fnmatch pattern %r" % pat)
         return VList([n for n in eng.iterate(names) if n.endswith(".mo")])
 
-    os_path = ModuleStub("os.path", {"getmtime": stub(getmtime), "join": stub(join)})
+    ident = stub(lambda eng, p_, *a: p_ if isinstance(p_, PathStr) else PathStr(str(p_)))
+    os_path = ModuleStub("os.path", {"getmtime": stub(getmtime), "join": stub(join),
+                                     # every path of the world is written absolute, normalised and free of links
+                                     "abspath": ident, "realpath": ident, "normpath": ident, "normcase": ident, "expanduser": ident,
+                                     "commonprefix": stub(commonprefix), "commonpath": stub(commonpath),
+                                     "dirname": stub(lambda eng, p_: PathStr("/".join(_lab(p_).split("/")[:-1]))),
+                                     "basename": stub(lambda eng, p_: _lab(p_).split("/")[-1]),
+                                     "isabs": stub(lambda eng, p_: True), "sep": "/"})
     os_mod = ModuleStub("os", {"path": os_path, "walk": stub(walk), "name": w.os_name})
 
     def pickle_load(eng, f):
@@ -303,6 +345,8 @@ FOLDER_SHAPES = [
     (["m.mo"], {"libA": ["a.mo"]}),
     (["m.mo"], {"libA": ["a.mo", "b.mo"], "libB": []}),
     ([], {"libA": ["a.mo"], "libB": ["c.mo"]}),
+    (["m.mo"], {"MODEL_libs": ["x.mo"]}),          # a library folder BESIDE the model folder whose name continues the model folder's name
+    (["m.mo"], {"MODEL/sub": ["s.mo"]}),           # a library folder INSIDE the model folder
 ]
 
 
